@@ -234,12 +234,12 @@ ENGINE_OF = {"C19": "matrix", "C18": "seq", "C17": "seq", "C20": "seq+sched", "C
 
 # what rounds 14-24 of the seeded-change calibration added to each check's alphabet / oracle (DESIGN.md sections 3 and 7)
 ADDED = {
-    "C01": "one-token requests name no batch count (pooled-option defaults); a rule-check slot that writes a blocked verdict and then panics; two callers exiting ONE entry concurrently; a pass with a 90 s tick (long holds); queued entries under a throttling rule (response time includes the wait)",
-    "C02": "reload of ALL rules of the resource in one load; a batch-0 request under threshold 0; clocks 3 / 103 ms after zero and half a bucket before bucket number 2^32",
-    "C03": "off-round thresholds (0.25, 2.25 counts; ratio 0.25)",
+    "C01": "one-token requests name no batch count (pooled-option defaults); a rule-check slot that writes a blocked verdict and then panics; two callers exiting ONE entry concurrently; a pass with a 90 s tick (long holds); queued entries under a throttling rule (response time includes the wait); an exit with a failing exit handler",
+    "C02": "reload of ALL rules of the resource in one load; a batch-0 request under threshold 0; clocks 3 / 103 ms after zero and half a bucket before bucket number 2^32; a permissive throttling rule in front of the reject rules",
+    "C03": "off-round thresholds (0.25, 2.25 counts; ratio 0.25); configurations starting after one complete recovery round",
     "C04": "rules sharing one ID; the virtual clock at 0; the clock stepping back 10 ms",
     "C05": "F6 a second rule in front; F7 a reload changing only a specific threshold; negative index with exactly |index| arguments",
-    "C06": "requests naming batch 3 / batch 0; attachment-only requests; an exit with a failing exit handler; concurrency rules whose ControlBehavior says Throttling",
+    "C06": "requests naming batch 3 / batch 0; attachment-only requests; an exit with a failing exit handler; concurrency rules whose ControlBehavior says Throttling; two concurrency rules sharing one ParamIndex",
     "C07": "an average-RT rule with trigger 70000 and a 90 s tick",
     "C08": "0 ms response times; a start time half a bucket before bucket number 2^32",
     "C09": "idle-gap scenarios (two different slots roll over at once); reader-only scenarios without the shared-location reduction, readers of different windows; response-time recorders; non-termination verdict (still running after 10x the step horizon)",
@@ -248,12 +248,12 @@ ADDED = {
     "C12": "a full retry timeout split into 1 ms + (timeout - 1 ms) across two threads; at most 3 recorded violations per class, a frequent class no longer ends a scenario",
     "C13": "content-identified rules incl. one-field variants (specific-item threshold, odd bucket count, cold factor); getter panics contained; outlier: a request per resource after every operation and node breakers compared with the rule in force",
     "C14": "breaker rule with a bucket count that does not divide the interval; memory-adaptive throttling subject; keeps-statistics check for both ratio strategies",
-    "C15": "two hotspot values, hotspot-concurrency module, invalid-only reload writers; non-termination verdict",
+    "C15": "two hotspot values, hotspot-concurrency module, invalid-only reload writers; getters against a clock moving past the window; non-termination verdict",
     "C16": "exit handler returning an error; half of the chains with the clock at 0; order values 0 and 2^32-1; a bare NewTokenResult(Blocked)",
     "C17": "resource names ' A' / 'A<TAB>'; application name with two dots; a second application's file in the directory; live-searcher pass (snapshot after write k, touch query, directory advanced, every query)",
-    "C18": "blank payloads; golden wire texts with integers beyond 2^32 / 2^40; a file of 1.1 MiB; converters / updaters that panic with non-error values; rules identified by id + content hash, payloads differing in one inconspicuous field",
+    "C18": "blank payloads; golden wire texts with integers beyond 2^32 / 2^40; a file of 1.1 MiB; converters / updaters that panic with non-error values; rules identified by id + content hash, payloads differing in one inconspicuous field; two handlers on the file datasource",
     "C19": "x typed client-error handler, x already-cancelled context (RPC-style entry points), x block errors without a triggered rule, fallbacks answering nil or an error (the caller must get exactly that)",
-    "C20": "state key includes the in-force percentage; known float-rounding signature limited to 'one node too many where the float64 product rounds up'",
+    "C20": "state key includes the in-force percentage; known float-rounding signature limited to 'one node too many where the float64 product rounds up'; per-resource reload; one-recovery-attempt configurations to depth 7; Engine A recycle-timer scenario",
 }
 for _k, _v in ADDED.items():
     if _k in META and "Added by the calibration rounds" not in META[_k]["rule"]:
